@@ -13,6 +13,7 @@ models:
 setup: coq models
 	python3 -c "import sys; sys.path.insert(0,'lib'); import fw; print(fw.ensure_cfg()); fw.build_lib('asan')"
 	@if [ -f tools/setup_extra.sh ]; then sh tools/setup_extra.sh; fi
+	-@sh tools/selfcheck.sh
 
 # (re)generate Makefile.coq when the set of files changes
 coqmk:
